@@ -6,3 +6,5 @@ CONSTANTS
   MaxN = 5
   MaxM = 2
   MaxF = 0
+  LemmaRuns = 0
+  LemmaV = 0
